@@ -258,6 +258,22 @@ def catalogue(seed):
         for _ in range(2):
             Fs.append([set(r.sample(sts, r.randint(1, len(sts))))
                        for _ in range(r.randint(1, 2))])
+        # families related to the first two: the same states grouped
+        # differently (merged into one constraint, split into singletons),
+        # a constraint listed twice as distinct objects, the list reversed.
+        # A cache of fair states keyed by anything coarser than the family
+        # itself (its union, its length, one of its members) answers one of
+        # these with what was computed for another.
+        base = Fs[1] if len(Fs[1]) > 1 or len(Fs[1][0]) > 1 else Fs[2]
+        u = set().union(*base)
+        Fs.append([set(u)])
+        Fs.append([{x} for x in sorted(u, key=repr)])
+        Fs.append([set(P) for P in base] + [set(base[0])])
+        Fs.append([set(P) for P in reversed(base)])
+        two = sorted(u, key=repr)
+        if len(two) >= 2:
+            Fs.append([set(two[:1]), set(two[1:])])
+            Fs.append([set(two[:-1]), set(two[-1:])])
         structs.append((nk, names, Fs))
     forms = []
     atoms = ('p', 'q')
@@ -318,7 +334,7 @@ def history(r, hid):
         if logic == 'CTL' and r.random() < 0.3:
             call_logic = 'CTLS'
         L = lang(call_logic)
-        Fi = 0 if r.random() < 0.65 else r.choice([1, 2])
+        Fi = 0 if r.random() < 0.55 else r.randrange(1, len(Fs))
         F = Fs[Fi]
         if F is not None:
             F = [set(P) for P in F]
